@@ -75,6 +75,15 @@ func (r *runner) validate(label string) {
 		r.checkUnplannedDeath()
 		return
 	}
+	// no request is in flight now (the clients of the step before have returned; cases with background searches are
+	// left out): a search worker slot that is still taken will never be given back, and as many such requests as
+	// there are workers block every later search for good
+	if r.c.Property != "C19" && r.st.API != nil {
+		if n := r.st.API.VerifBusySearchWorkers(); n > 0 {
+			r.violate("search_slot_leak", "%s: %d of %d search worker slots are still taken although no search is in flight: they are never given back, %d such requests deadlock every later search", label, n, max(1, r.c.Knobs.SearchWorkers), max(1, r.c.Knobs.SearchWorkers))
+			return
+		}
+	}
 	if r.c.Oracles.Retention {
 		r.validateRetention(label)
 		return
